@@ -245,6 +245,7 @@ func (x *Explorer) builtin(fr *Frame, st *State, ins *ssa.Call, args []Val) Val 
 		for _, a := range args {
 			as = append(as, vstr(a))
 		}
+		st.events = append(st.events, Event{Kind: "call", Method: "append", Args: args, Loop: x.loopTag(fr, ins.Block()), Pos: ins, Fn: fr.fn, Seq: len(st.events)})
 		return &Sym{N: "append(" + strings.Join(as, ", ") + ")", T: ins.Type()}
 	case "copy", "delete", "print", "println":
 		return &KConst{S: "0"}
@@ -301,12 +302,21 @@ func (x *Explorer) ormCall(fr *Frame, st *State, oc *ORMCall, ins *ssa.Call, arg
 		st.events = append(st.events, ev)
 		return &Tuple{Vs: []Val{&BoolV{F: "Has:" + t.Name + "." + oc.Method + "(" + strings.Join(ks, ", ") + ")"}, e}}
 	case "list":
-		// drop the variadic options: the scan is identified by its index key(s)
-		if oc.Method == "List" && len(keyArgs) > 1 {
-			keyArgs = keyArgs[:1]
-		} else if oc.Method == "ListRange" && len(keyArgs) > 2 {
-			keyArgs = keyArgs[:2]
+		// split off the variadic options: the scan is identified by its index key(s)
+		var opts []Val
+		nk := 1
+		if oc.Method == "ListRange" {
+			nk = 2
 		}
+		if len(keyArgs) > nk {
+			if els, ok := x.sliceElems(st, keyArgs[nk]); ok {
+				opts = els
+			} else if !isK(keyArgs[nk], "nil") {
+				opts = []Val{keyArgs[nk]}
+			}
+			keyArgs = keyArgs[:nk]
+		}
+		ev.Args = opts
 		it := &IterV{ID: st.newID(), T: t, Kind: oc.Method, Keys: keyArgs}
 		e := &ErrV{ID: st.newID(), Origin: "orm:" + t.Name + "." + oc.Method}
 		ev.Kind, ev.Keys, ev.ErrID, ev.RowObj = "read", keyArgs, e.ID, it.ID
